@@ -42,6 +42,7 @@ fn main() {
                 "follow" => follow::replay(&cases),
                 "follow-exec" => follow::replay_exec(&cases),
                 "engine" => engine::replay(&cases),
+                "engine-follow" => follow::replay_engine_follow(&cases),
                 "reader" => reader::replay(&cases),
                 "printer" => printer::replay(&cases),
                 "values" => values::replay(&cases),
